@@ -391,6 +391,9 @@ def run(check, ctx):
         n += int_table.backend_table(check, repo, be)
     if n < 9000:
         raise AnalysisError("only %d integer rows interpreted (confirmed: 10095)" % n)
+    # both GHASH implementations against the same reference (hence against each other)
+    from . import c_ghash
+    c_ghash.ghash_tables(check, ctx)
     check.floor("K-pw", 8)
     check.floor("S", 6)
     check.floor("M", 4)
